@@ -392,7 +392,28 @@ pub mod verif_hook {
         INSIDE.with(|i| i.set(false));
         let res = match res {
             Ok(res) => res,
-            Err(e) => std::panic::resume_unwind(e),
+            Err(e) => {
+                // a call that panics (caught further up by `Rule::crawl`) may already have
+                // updated the memory: log it so that the next call's "before" is explained
+                let (refuted_after, latest_after) = memory(context);
+                CAPS_LOG.with(|l| {
+                    if let Some(log) = l.borrow_mut().as_mut() {
+                        log.push(CapsCall {
+                            raw: raw.clone(),
+                            templated,
+                            policy: extended_capitalisation_policy.to_string(),
+                            policy_name: cap_policy_name.to_string(),
+                            refuted_before: refuted_before.clone(),
+                            latest_before: latest_before.clone(),
+                            refuted_after,
+                            latest_after,
+                            fixed: None,
+                            description: Some("<panicked>".to_string()),
+                        });
+                    }
+                });
+                std::panic::resume_unwind(e)
+            }
         };
         let (refuted_after, latest_after) = memory(context);
         let fixed = res
